@@ -108,8 +108,12 @@ def check_contraction(ch, a, b, sa, sb, axes_a, axes_b, modes, forms=True):
             preserve = ch.boolean(f"preserve-{mode}")
         fn = sr.tensordot if form == "sr" else (
             lambda *a_, **k: ar.do("tensordot", *a_, **k))
+        # (the documented default is preserve_array=False: left out for
+        # one of the modes)
+        kw = {} if (not preserve and mode != "fused") else {
+            "preserve_array": preserve}
         r = must(fn, a, b, (tuple(axes_a), tuple(axes_b)), mode=mode,
-                 preserve_array=preserve, what=sig)
+                 what=sig, **kw)
         if isinstance(r, sr.FermionicArray):
             require(not (r.ndim == 0 and not preserve), sig + ":scalar-form",
                     "rank-0 array although preserve_array=False")
